@@ -84,6 +84,7 @@ type loopCtx struct {
 	mode      int // 0 real, 1 discover, 2 houdini, 3 unrolled
 	cands     []cand
 	remaining int
+	doneAtEntry map[string]bool // discovery: contexts already known to be done when the loop was entered
 }
 
 type Obligation struct {
